@@ -134,6 +134,27 @@ Proof.
   intros Hb. destruct H1 as (G1 & C1 & L1). exact (L_limits_ok _ _ G1 C1 (L1 Hb)).
 Qed.
 
+(* which errors the handlers can return *)
+Lemma wp_run_op_err o s k :
+  Inv false s -> op_wf o ->
+  wp (run_op fixed o) (fun e _ => err_class_ok o e = true) (start s k).
+Proof.
+  intros (c0 & HH) WF. pose proof (H_start false c0 s k HH) as HS.
+  destruct o; cbn [run_op].
+  - eapply wp_conseq; [apply (wp_add_reserved_e false _ ps _ HS)|]. intros e s' (-> & _). reflexivity.
+  - eapply wp_conseq; [apply (wp_remove_reserved_e false _ ps _ HS); discriminate|].
+    intros e s' ([->| ->] & _); reflexivity.
+  - eapply wp_conseq; [apply (wp_set_reserved_e false _ ps _ HS); discriminate|].
+    intros e s' ([->| ->] & _); reflexivity.
+  - eapply wp_conseq; [apply (wp_report_e false _ delta ps _ HS WF)|]. intros e s' (-> & _). reflexivity.
+  - eapply wp_conseq; [apply (wp_add_peer_e false _ ps _ HS)|]. intros e s' (-> & _). reflexivity.
+  - eapply wp_conseq; [apply (wp_remove_peer_e false _ ps _ HS)|]. intros e s' (-> & _). reflexivity.
+  - eapply wp_conseq; [apply (wp_incoming_e false _ ps _ HS)|]. intros e s' (-> & _). reflexivity.
+  - eapply wp_conseq; [apply (wp_disconnect_e false _ refused ps _ HS)|]. intros e s' ([->| ->] & _); reflexivity.
+  - eapply wp_conseq; [apply (wp_alloc_slots_op false _ _ HS)|]. intros e s' (-> & _). reflexivity.
+  - unfold age_peers. apply wp_bind. apply (wp_modify (fun s => fold_left age_one ps s)). apply wp_ret. reflexivity.
+Qed.
+
 (* the empty peer set *)
 Lemma Inv_init b mi mo ro : (mi < 4294967296)%N -> (mo < 4294967296)%N -> Inv b (init_pset mi mo ro).
 Proof.
@@ -192,3 +213,17 @@ Proof.
   split; [intros p n Hin; exact (gb p n (FN p n Hin))|]. split; [intros p n Hin; exact (gr p n (FN p n Hin))|].
   intros RO p n Hin C. apply memN_true. apply gro; [exact RO|]. unfold conn. now rewrite (FN p n Hin).
 Qed.
+
+Lemma step_errors mi mo ro h s k o r :
+  (mi < 4294967296)%N -> (mo < 4294967296)%N -> hist_wf (h ++ [(k, o)]) ->
+  reachable fixed (init_pset mi mo ro) h s -> In r (step fixed s k o) ->
+  exists e s', r = Ret e s' /\ err_class_ok o e = true.
+Proof.
+  intros A B WF R Hr.
+  assert (WF' : hist_wf h) by (intros k' o' Hin; apply (WF k' o'); apply in_or_app; now left).
+  assert (WO : op_wf o) by (apply (WF k o); apply in_or_app; right; now left).
+  destruct (reachable_inv_false mi mo ro h s A B WF' R) as (I1 & _).
+  pose proof (wp_run_op_err o s k I1 WO r Hr) as W.
+  destruct r as [e s'| | |]; try contradiction. now exists e, s'.
+Qed.
+
